@@ -29,9 +29,9 @@ func (c *BaseClient) Ping(ctx context.Context) error {
 		return err
 	}
 	chPingResp := make(chan *pktPingResp, 1)
-	sig.mu.Lock()
-	sig.chPingResp = chPingResp
-	sig.mu.Unlock()
+	sig.addPingResp(chPingResp)
+	// Don't leave the waiter of an abandoned ping; it would take the response of a later one.
+	defer sig.removePingResp(chPingResp)
 
 	pkt := pack(packetPingReq.b())
 
